@@ -144,6 +144,11 @@ type Client struct {
 
 	// Post resume hook. This will be executed after the client resumes a lost connection using StreamManagement (XEP-0198)
 	PostResumeHook func() error
+
+	// sendLock makes "number and hold a stanza, then write it" one step. With stream management the server
+	// counts stanzas in the order they reach the wire: that must be the order of the numbers they were given,
+	// also when several goroutines send at the same time.
+	sendLock sync.Mutex
 }
 
 /*
@@ -330,6 +335,8 @@ func (c *Client) Send(packet stanza.Packet) error {
 	// Store stanza as non-acked as part of stream management
 	// See https://xmpp.org/extensions/xep-0198.html#scenarios
 	if c.config.StreamManagementEnable && isStanzaName(packet.Name()) {
+		c.sendLock.Lock()
+		defer c.sendLock.Unlock()
 		toStore := stanza.UnAckedStz{Stz: string(data)}
 		c.holdUnacked(&toStore)
 	}
@@ -374,6 +381,8 @@ func (c *Client) SendRaw(packet string) error {
 	// Store stanza as non-acked as part of stream management
 	// See https://xmpp.org/extensions/xep-0198.html#scenarios
 	if c.config.StreamManagementEnable && isStanzaName(firstElementName(packet)) {
+		c.sendLock.Lock()
+		defer c.sendLock.Unlock()
 		toStore := stanza.UnAckedStz{Stz: packet}
 		c.holdUnacked(&toStore)
 	}
